@@ -82,6 +82,11 @@ UpperHalfCastCases ==
       P(CaseRec("cast", "Cast", <<AI("to", OnnxCode("u64"))>>, <<X>>, ValueOrError(<<T("u64", <<3>>, <<Sym(1, 0), Fin(1048576), Fin(7)>>)>>), <<"value_or_error", "upper_half_u64", "f32->u64">>))
    /\ LET X == T("f64", <<2>>, <<<<0, 0, 0, 0, 0, 0, 224, 67>>, <<0, 0, 0, 0, 0, 0, 28, 64>>>>) IN      \* 2^63 and 7.0 as float64 byte images
       P(CaseRec("cast", "Cast", <<AI("to", OnnxCode("u64"))>>, <<X>>, ValueOrError(<<T("u64", <<2>>, <<Sym(1, 0), Fin(7)>>)>>), <<"value_or_error", "upper_half_u64", "f64->u64">>))
+   \* 1.5 * 2^63 = 0xC000000000000000 (beyond the signed range, so a detour through int64 cannot produce it)
+   /\ LET X == T("f32", <<2>>, <<[c |-> "ord", n |-> 190 * 8388608 + 4194304, d |-> 1], Fin(7)>>) IN
+      P(CaseRec("cast", "Cast", <<AI("to", OnnxCode("u64"))>>, <<X>>, ValueOrError(<<T("u64", <<2>>, <<<<0, 0, 0, 0, 0, 0, 0, 192>>, <<7, 0, 0, 0, 0, 0, 0, 0>>>>)>>), <<"value_or_error", "upper_half_u64", "f32->u64">>))
+   /\ LET X == T("f64", <<2>>, <<<<0, 0, 0, 0, 0, 0, 232, 67>>, <<0, 0, 0, 0, 0, 0, 28, 64>>>>) IN
+      P(CaseRec("cast", "Cast", <<AI("to", OnnxCode("u64"))>>, <<X>>, ValueOrError(<<T("u64", <<2>>, <<<<0, 0, 0, 0, 0, 0, 0, 192>>, <<7, 0, 0, 0, 0, 0, 0, 0>>>>)>>), <<"value_or_error", "upper_half_u64", "f64->u64">>))
    /\ LET X == T("f32", <<>>, <<Pow2F32(63)>>) IN
       P(CaseRec("cast", "Cast", <<AI("to", OnnxCode("u64"))>>, <<X>>, ValueOrError(<<T("u64", <<>>, <<Sym(1, 0)>>)>>), <<"value_or_error", "upper_half_u64", "scalar">>))
    /\ LET X == T("f32", <<2>>, <<Pow2F32(31), Fin(3)>>) IN                                              \* 2^31: the top bit of a uint32
